@@ -214,7 +214,17 @@ impl Database {
             layout.remove_or_compress_hole(start, PAGE_SIZE)?;
             start
         } else {
-            layout.len()
+            let end = layout.len();
+            if self.file_len() < end + PAGE_SIZE {
+                // The hole seen under the read lock above was taken by another thread in
+                // the meantime. The file cannot be grown under the layout lock: release
+                // everything, grow, and start over.
+                drop(regions);
+                drop(layout);
+                self.set_min_len(end + PAGE_SIZE)?;
+                return self.create_region_if_needed(id);
+            }
+            end
         };
 
         let region = regions.create(self, id.to_owned(), start)?;
